@@ -34,6 +34,13 @@ def _bit_names(ttype, base: str) -> List[str]:
     return [base]
 
 
+def _flat_bits(v) -> list:
+    """The bits of a (possibly nested) value, in order"""
+    if isinstance(v, list):
+        return [b for el in v for b in _flat_bits(el)]
+    return [v]
+
+
 def translate_statement(  # noqa: C901
     stmt, env: Env, ret_type: TType
 ) -> Tuple[List[Tuple[str, Boolean]], Env]:
@@ -71,6 +78,14 @@ def translate_statement(  # noqa: C901
         tval, val = translate_expression(stmt.value, env)  # TODO: typecheck
         res = decompose_to_symbols(val, f"{target}")
 
+        # A tuple-typed value can be a flat list of bits (a tuple variable, a nested element): the
+        # bits of the new variable are named after its type, as element access expects them
+        if len(get_args(tval)) > 0 and isinstance(val, list):
+            flat = _flat_bits(val)
+            names = _bit_names(tval, target)
+            if len(names) == len(flat):
+                res = list(zip(names, flat))
+
         env.bind(Binding(target, tval, [x[0] for x in res]), rebind=target in env)
         res = list(map(lambda x: (Symbol(x[0]), x[1]), res))
         return res, env
@@ -98,13 +113,10 @@ def translate_statement(  # noqa: C901
         # A tuple-typed variable is a flat list of bits: name the return bits after the (nested)
         # return type, as it is done for the declared return argument
         ret_names = _bit_names(ret_type, "_ret")
-        if (
-            len(get_args(ret_type)) > 0
-            and isinstance(vexp, list)
-            and not any(isinstance(v, list) for v in vexp)
-            and len(ret_names) == len(vexp)
-        ):
-            res = list(zip(ret_names, vexp))
+        if len(get_args(ret_type)) > 0 and isinstance(vexp, list):
+            flat = _flat_bits(vexp)
+            if len(ret_names) == len(flat):
+                res = list(zip(ret_names, flat))
 
         env.bind(Binding("_ret", texp, [x[0] for x in res]))
         res = list(map(lambda x: (Symbol(x[0]), x[1]), res))
